@@ -246,14 +246,32 @@ def priming_family(kind):
     U = exp.export(u)
     out = []
 
-    def psub(term, names, to_primed=True):
-        sub = []
+    def ren_of(names, to_primed=True):
+        """Bit renaming: the base predicate's bit `b` is read from bit `ren[b]` of the assignment."""
+        ren = {}
         for n in names:
             for b in link.bits_of(n, aut.vars[n]):
-                sub.append((bits(b), bits(b + "'")) if to_primed else (bits(b + "'"), bits(b)))
-        return z3.substitute(term, *sub)
+                if to_primed:
+                    ren[b] = b + "'"
+                else:
+                    ren[b + "'"] = b
+        return ren
 
-    def decide(name, f, sample):
+    def concrete(node, base, ren, model):
+        """Evaluate, without z3, result and renamed base at the model's point on the real BDDs."""
+        bdd = aut.bdd
+        point = {v: bool(z3.is_true(model.eval(bits(v), model_completion=True))) for v in bdd.vars}
+        got = bdd.let(point, node)
+        moved = dict(point)
+        for b, src in ren.items():
+            moved[b] = point[src]
+        want = bdd.let(moved, base)
+        assert got in (bdd.true, bdd.false) and want in (bdd.true, bdd.false)
+        return got == bdd.true, want == bdd.true, {k: v for k, v in point.items() if not k.startswith(('p_', 'm_'))}
+
+    def decide(name, node, base, ren, sample):
+        BASE = exp.export(base)
+        f = exp.export(node) != z3.substitute(BASE, *[(bits(b), bits(src)) for b, src in ren.items()])
         sol = z3.Solver()
         sol.set('timeout', SOLVER_MS)
         sol.add(f)
@@ -264,26 +282,44 @@ def priming_family(kind):
             out.append(core.res(f'priming {kind} {name}', 'holds', queries={r: 1}, solver_s=dt, sample=sample,
                                 nontrivial=True, functions=FUNCS))
         elif r == 'sat':
-            vals = family.model_params(sol.model(), params, bits)
+            m = sol.model()
+            got, want, point = concrete(node, base, ren, m)
+            if got == want:
+                out.append(core.res(f'priming {kind} {name}', 'inconclusive', queries={r: 1}, solver_s=dt, sample=sample,
+                                    detail='counterexample not reproduced on the real BDDs (export or harness error)'))
+                return
+            tab = family.model_params(m, params + mparams, bits)
             out.append(core.res(f'priming {kind} {name}', 'violation', queries={r: 1}, solver_s=dt, sample=sample,
                                 nontrivial=True, functions=FUNCS, signature=f'priming:{name.split()[0]}',
-                                detail=f'{name}: exported result differs from bit substitution for the predicate with table '
-                                       f'{"".join("1" if vals[p] else "0" for p in params)[:64]}...',
-                                cex=dict(kind='priming', which=kind, op=name, values=vals)))
+                                detail=f'{name}: at the bit assignment {point} the result is {got}, the predicate read through '
+                                       f'the renaming is {want} (replayed on the real BDDs without z3; predicate table '
+                                       f'{"".join("1" if tab[p] else "0" for p in tab)[:64]}...)',
+                                cex=dict(kind='priming', which=kind, op=name, values={k: bool(v) for k, v in tab.items()},
+                                         point=point, got=got, want=want)))
         else:
             out.append(core.res(f'priming {kind} {name}', 'inconclusive', queries={r: 1}, solver_s=dt, sample=sample, detail=r))
     smp = dict(kind=kind, variables=decls[0], constants=decls[1], table_constants=len(params))
+    mparams = []
     pu = prm.prime(u, aut)
-    PU = exp.export(pu)
-    decide('prime', PU != psub(U, flex), smp)
-    decide('unprime(prime)', exp.export(prm.unprime(pu, aut)) != U, smp)
+    decide('prime', pu, u, ren_of(flex), smp)
+    decide('unprime(prime)', prm.unprime(pu, aut), u, {}, smp)
     for sub in (['x'], ['y', 'z'], ['x', 'z']):
         r1 = aut.replace_with_primed(sub, u)
-        decide(f'replace_with_primed {sub}', exp.export(r1) != psub(U, sub), smp)
+        decide(f'replace_with_primed {sub}', r1, u, ren_of(sub), smp)
         r2 = aut.replace_with_unprimed(sub, r1)
-        decide(f'replace_with_unprimed {sub}', exp.export(r2) != U, smp)
+        decide(f'replace_with_unprimed {sub}', r2, u, {}, smp)
         r3 = aut.replace_with_unprimed([s for s in flex if s not in sub], pu)
-        decide(f'replace_with_unprimed complement of {sub} in prime(u)', exp.export(r3) != psub(U, sub), smp)
+        decide(f'replace_with_unprimed complement of {sub} in prime(u)', r3, u, ren_of(sub), smp)
+    # mixed predicates: the same identifier primed and unprimed in one support (an action such as x' = x + 1)
+    mixed = dict(bools=['x', "x'", "y'", 'z', 'k'], ints=["x'", 'y', "y'", 'k'])[kind]
+    mexpr = family.table(aut, 'm', mixed, mparams)
+    aut.declare_constants(**{p: 'bool' for p in mparams})
+    mu = aut.add_expr(mexpr)
+    smp2 = dict(smp, over=mixed, table_constants=len(mparams))
+    decide('unprime of an action over ' + ' '.join(mixed), prm.unprime(mu, aut), mu, ren_of(flex, False), smp2)
+    for sub in (['x'], ['y'], ['y', 'z'], ['x', 'y']):
+        decide(f'replace_with_unprimed {sub} in an action', aut.replace_with_unprimed(sub, mu), mu, ren_of(sub, False), smp2)
+        decide(f'replace_with_primed {sub} in an action', aut.replace_with_primed(sub, mu), mu, ren_of(sub), smp2)
     # support classification on concrete members (Python-level results), solver decides dependence
     rnd = random.Random(11)
     for it in range(6):
@@ -363,7 +399,11 @@ def replay(payload):
     if c['kind'] == 'api':
         r = api_declarations([(c['lo'], c['hi'])], 0)
         return r[0]['status'] == 'violation', r[0]['detail']
-    return False, 'family-level priming counterexamples: re-run the check'
+    if c['kind'] == 'priming':
+        rs = priming_family(c['which'])
+        bad = [r for r in rs if r['status'] == 'violation' and r['cex'].get('op') == c['op']]
+        return bool(bad), (bad[0]['detail'] if bad else 'not reproduced')
+    return False, 'support classification: re-run the check'
 
 
 def run(tier, seed, t0, only=None):
